@@ -137,7 +137,7 @@ def run(ctx):
         # switch the table; the alphabet must follow (and a rejected update must not change it)
         before = cache_probe()
         # a rejected update (valid, looser entries first) must leave table and alphabet as they are
-        bad, reason = tablegen.invalid_update(rng)
+        bad, reason = tablegen.invalid_update(rng, current=sf.get_semantic_constraints())
         rj = call_guard(lambda: sf.set_semantic_constraints(bad))
         if rj[0] == "ok":
             ctx.finding("invalid-update-accepted", {"table": table, "update": repr(bad)}, reason)
